@@ -8,7 +8,7 @@ import collections
 import datetime as dt
 import itertools
 
-from .. import alphabet, common, refmodel, univ, world as W
+from .. import alphabet, common, ladder, refmodel, univ, world as W
 from .base import viol, CFG4
 
 WRONG = {
@@ -35,6 +35,7 @@ SLOT_WRONG = {
     "fields-container": ["int", "str", "list", "bool"],
 }
 ENTRIES = ["Point()", "setattr", "insert-measurement-arg", "insert_multiple-measurement-arg", "handle-nonstr-name.insert",
+           "insert_multiple-1100-points-measurement-arg", "handle-nonstr-name.insert_multiple-1100-points",
            "update", "update_all", "h.update", "h.update_all"]
 
 
@@ -68,7 +69,7 @@ class C14(univ.UnivCheck):
 
     def __init__(self, tier, seed):
         super().__init__(tier, seed)
-        self.alpha = alphabet.Alphabet(seed)
+        self.alpha = ladder.install(alphabet.Alphabet(seed))
         self.cfgs = [dict(c) for c in CFG4]
         cases = []
         for entry in ENTRIES:
@@ -77,11 +78,14 @@ class C14(univ.UnivCheck):
                     if entry in ("Point()", "setattr"):
                         cases.append((entry, slot, wid, False, None, 0, 0))
                         continue
-                    if entry in ("insert-measurement-arg", "insert_multiple-measurement-arg", "handle-nonstr-name.insert"):
+                    if entry in ("insert-measurement-arg", "insert_multiple-measurement-arg", "handle-nonstr-name.insert",
+                                 "insert_multiple-1100-points-measurement-arg", "handle-nonstr-name.insert_multiple-1100-points"):
+                        if "1100" in entry and wid not in ("int", "bytes", "tuple"):
+                            continue
                         if slot != "measurement" or wid == "None" or (entry.startswith("handle") and wid in ("list", "dict")):
                             continue
                         for ci in range(4):
-                            for npre in (0, 1):
+                            for npre in ((0, 1) if "1100" not in entry else (0,)):
                                 cases.append((entry, slot, wid, False, None, ci, npre))
                         continue
                     for via_callable in (False, True, "inplace"):
@@ -100,7 +104,9 @@ class C14(univ.UnivCheck):
                 for wid in ("int", "list", "bool", "float"):
                     for ci in range(4):
                         cases.append((entry, arg, wid, False, "all" if entry == "update" else None, ci, 2))
-        self.cases = cases
+        # the same matrix once more for the mapping slots, with the offending item hidden among 20 valid entries
+        wide = [c + ("wide",) for c in cases if c[1] in ("tagkey", "tagvalue", "fieldkey", "fieldvalue") and c[0] not in ("Point()", "setattr")]
+        self.cases = cases + wide
 
     def rule(self):
         return (
@@ -137,6 +143,9 @@ class C14(univ.UnivCheck):
             return {"measurement": (lambda old: val) if via_callable else val}
         if slot in ("tagkey", "tagvalue", "fieldkey", "fieldvalue"):
             d = {"tagkey": {v: "v"}, "tagvalue": {"a": v}, "fieldkey": {v: 1}, "fieldvalue": {"v": v}}[slot]
+            if self.wide:
+                pad = {("k%02d" % i): ("s" if slot.startswith("tag") else i) for i in range(20)}
+                d = {**dict(list(pad.items())[:10]), **d, **dict(list(pad.items())[10:])}
             arg = "tags" if slot.startswith("tag") else "fields"
             if via_callable == "inplace":
                 def mutate(old):
@@ -153,10 +162,13 @@ class C14(univ.UnivCheck):
             return {slot: v}
         raise ValueError(slot)
 
+    wide = False
+
     def run_case(self, case):
         from tinyflux import Point, TagQuery
 
-        entry, slot, wid, via_callable, sel, ci, npre = case
+        self.wide = len(case) > 7 and case[7] == "wide"
+        entry, slot, wid, via_callable, sel, ci, npre = case[:7]
         A = self.alpha
         sig0 = f"C14|{entry}|slot={slot}|{'callable-inplace' if via_callable == 'inplace' else ('callable' if via_callable else 'static')}"
         if entry in ("Point()", "setattr"):
@@ -169,6 +181,11 @@ class C14(univ.UnivCheck):
                         "tags-container": {"tags": v}, "fields-container": {"fields": v},
                     }[slot]
                     p = Point(**kw)
+                    if slot in ("tagkey", "tagvalue", "fieldkey", "fieldvalue"):
+                        # ... and once more with the offending item among 20 valid entries
+                        arg = "tags" if slot.startswith("tag") else "fields"
+                        pad = {("k%02d" % i): ("s" if arg == "tags" else i) for i in range(20)}
+                        Point(**{arg: {**pad, **kw[arg]}})
                 else:
                     p = Point()
                     if slot == "time":
@@ -207,6 +224,10 @@ class C14(univ.UnivCheck):
                 w.db.insert(A.mk_point("P2"), measurement=WRONG[wid]())
             elif entry == "insert_multiple-measurement-arg":
                 w.db.insert_multiple([A.mk_point("P2"), A.mk_point("P4")], measurement=WRONG[wid]())
+            elif entry == "insert_multiple-1100-points-measurement-arg":
+                w.db.insert_multiple([A.mk_point("G%d" % i) for i in range(1100)], measurement=WRONG[wid]())
+            elif entry == "handle-nonstr-name.insert_multiple-1100-points":
+                w.db.measurement(WRONG[wid]()).insert_multiple([A.mk_point("G%d" % i) for i in range(1100)])
             elif entry == "handle-nonstr-name.insert":
                 w.db.measurement(WRONG[wid]()).insert(A.mk_point("P2"))
             else:
